@@ -269,7 +269,7 @@ class Interp:
         self.builtins = {"print": Noop(), "len": sym_len, "abs": abs, "min": min, "max": max, "range": range,
                          "isinstance": isinstance, "tuple": tuple, "list": list, "int": int, "float": float,
                          "True": True, "False": False, "None": None, "set": set, "dict": dict, "sum": sum,
-                         "enumerate": enumerate, "zip": zip, "sorted": sorted, "hasattr": hasattr}
+                         "enumerate": enumerate, "zip": zip, "sorted": sorted, "hasattr": hasattr, "str": str}
         if builtins_model:
             self.builtins.update(builtins_model)
         self._loop_ids: Dict[int, int] = {}
@@ -596,6 +596,16 @@ class Interp:
         return [st]
 
     def st_AugAssign(self, s, st):
+        if isinstance(s.target, (ast.Attribute, ast.Subscript)):
+            # obj.attr op= v  /  obj[k] op= v  on model objects: read, combine, write back (obj and k evaluated once: they are pure here)
+            load = copy.copy(s.target)
+            load.ctx = ast.Load()
+            cur = self.ev(load, st)
+            r = self.ev(s.value, st)
+            with self._ctx(st):
+                new = _BIN[type(s.op)](cur, r)
+            self.bind(s.target, new, st)
+            return [st]
         if not isinstance(s.target, ast.Name):
             raise PyvcUnsupported("augmented assignment to a non-name")
         cur = self.ev(ast.Name(id=s.target.id, ctx=ast.Load(), lineno=s.lineno, col_offset=0), st)
